@@ -938,8 +938,14 @@ ABT_bool ABTI_sched_has_to_stop(ABTI_sched *p_sched)
                 return ABT_TRUE;
         } else if (p_sched->used == ABTI_SCHED_IN_POOL) {
             /* Let's finish it anyway.
-             * TODO: think about the condition. */
-            return ABT_TRUE;
+             * TODO: think about the condition.
+             * ABTI_sched_has_unit() reads the emptiness of a pool and then its
+             * number of blocked ULTs.  A blocked ULT that is resumed between
+             * the two reads is counted in neither (it is pushed first, then
+             * num_blocked is decremented), so check again as for the join
+             * request; the second call sees the pushed ULT. */
+            if (!ABTI_sched_has_unit(p_sched))
+                return ABT_TRUE;
         }
     }
     return ABT_FALSE;
